@@ -147,7 +147,9 @@ def stream_b(ctx, res, n):
     tmp = ctx.tmpdir()
     home = os.environ["HOME"]
     reqs, pend = [], []
+    base_cwd = os.getcwd()
     for i in range(n):
+        os.chdir(base_cwd)
         rng = ctx.rng
         fmt = FORMATS[i % len(FORMATS)]
         d = os.path.join(tmp, "c%d" % i)
@@ -176,6 +178,16 @@ def stream_b(ctx, res, n):
         def resolve(fn, trees=trees):
             return copy.deepcopy(trees[fn]) if isinstance(fn, str) and fn in trees else None
 
+        # decoys: files of the same relative names (and of the unresolvable ones) under the *current* directory, with other content —
+        # an include path is resolved against the field's start directory only
+        decoy = os.path.join(tmp, "decoy%d" % i)
+        os.makedirs(os.path.join(decoy, "sub"))
+        for nm in list(names) + ["missing." + fmt]:
+            if not os.path.isabs(nm):
+                with open(os.path.normpath(os.path.join(decoy, nm)), "wb") as f:
+                    f.write(formatter.dumps(None, {"a": "decoy", "decoy": True}))
+        old_cwd = os.getcwd()
+        os.chdir(decoy)
         schema = build_schema(sk, d)
         # (1) correspondence on the processed tree
         cfg = schema()
@@ -224,6 +236,7 @@ def stream_b(ctx, res, n):
                 res.violate(None, "load succeeded although an include could not be resolved", dict(case, loaded=loaded))
         if got[0] != exp[0] or (got[0] == "ok" and canon_sorted(got[1]) != canon_sorted(exp[1])):
             res.violate(None, "_process_includes differs from the deep-merge-in-scope law", dict(case, got=got, expected=exp))
+        os.chdir(old_cwd)
         # model request
         files = []
         seen = []
@@ -245,6 +258,7 @@ def stream_b(ctx, res, n):
             files.append([enc_tree(v), enc_tree(r) if r is not None else None])
         reqs.append({"cmd": "includes", "schema": wire_schema(sk), "tree": enc_tree(doc), "files": files})
         pend.append((case, got))
+    os.chdir(base_cwd)
     replies = ctx.model(reqs)
     if replies is not None:
         for (case, got), r in zip(pend, replies):
